@@ -67,7 +67,7 @@ def props_config():
 
 
 # ----------------------------------------------------------------------------- layer P
-def run_P(pid, tier, world):
+def run_P(pid, tier, world, known_regexes=()):
     from pyvc.engine import Engine
     from pyvc import smt
     eng = Engine(world)
@@ -78,6 +78,10 @@ def run_P(pid, tier, world):
         for t in [c.target] + c.also:
             reports.append(eng.verify(c, t))
     obs = [o for r in reports for o in r.obligations]
+    import re
+    for o in obs:
+        if any(re.search(rx, o.coarse) for rx in known_regexes):
+            o.low_budget = True
     timeout = int(os.environ.get("VERIF_SMT_TIMEOUT", "40" if tier == "quick" else "120"))
     t0 = time.time()
     smt.discharge(eng.axioms(), obs, timeout_s=timeout)
@@ -245,7 +249,14 @@ def check(pid, tier):
 
     # ---- P
     eng, reports, solver_wall = run_P(pid, tier, world)
-    vcs = [o for r in reports for o in r.obligations]
+    # an obligation may be attributed to some of its contract's properties only (label prefix -> property ids)
+    vcs = []
+    for r in reports:
+        lp = getattr(world.contracts[r.contract], "label_props", {})
+        for o in r.obligations:
+            owners = next((ps for pre, ps in lp.items() if pre in o.label), None)
+            if owners is None or pid in owners:
+                vcs.append(o)
     cover = [o for o in vcs if o.expect_fail]
     real = [o for o in vcs if not o.expect_fail]
     failed = [o for o in real if o.status != "discharged"]
